@@ -1122,8 +1122,24 @@ func (c *Ctx) diatonicTables(fnName string) (major, minor []string, pos token.Po
 				c.diatonicPaired[fnName] = *okMj && *okMn
 				// ... in every supported key (a respelling of roots touches only the keys that hold E#, B#, Cb or Fb)
 				for _, ks := range requiredKeys() {
-					if _, okK := c.diatonicThroughConstructor(api, ks); okK != nil && !*okK {
+					namesK, okK := c.diatonicThroughConstructor(api, ks)
+					if okK != nil && !*okK {
 						c.diatonicPaired[fnName] = false
+					}
+					// ... and the same names in every key of the mode: the qualities follow the scale degree, not the tonic
+					if okK != nil && namesK != nil {
+						want := mj
+						if strings.HasSuffix(ks, "m") {
+							want = mn
+						}
+						if strings.Join(namesK, " ") != strings.Join(want, " ") {
+							if c.diatonicKeyProblem == nil {
+								c.diatonicKeyProblem = map[string]string{}
+							}
+							if c.diatonicKeyProblem[fnName] == "" {
+								c.diatonicKeyProblem[fnName] = fmt.Sprintf("in %s the chords are named [%s], in %s [%s]: the qualities of the diatonic chords depend on the tonic", ks, strings.Join(namesK, " "), map[bool]string{false: "C", true: "Am"}[strings.HasSuffix(ks, "m")], strings.Join(want, " "))
+							}
+						}
 					}
 				}
 				return mj, mn, api.Pos(), nil
@@ -1291,6 +1307,10 @@ func ruleTabDiatonic(c *Ctx) {
 		if err != nil {
 			c.undec("op.DiatonicChorderImpl."+tbl.fn, c.pos(pos), "op.DiatonicChorderImpl."+tbl.fn, err.Error())
 			continue
+		}
+		if c.diatonicViaAPI[tbl.fn] {
+			c.site(1)
+			c.check(c.diatonicKeyProblem[tbl.fn] == "", "op."+tbl.fn+"|every-key", c.pos(pos), "op.DiatonicChorderImpl."+tbl.fn, "the same chord qualities in every key of a mode (folded through the constructor in all 28 keys)", "op.DiatonicChorderImpl."+tbl.fn+": "+c.diatonicKeyProblem[tbl.fn])
 		}
 		for _, mode := range []struct {
 			minor bool
